@@ -916,6 +916,9 @@ func GrammarGen(cfg GenConfig) *rapid.Generator[*Grammar] {
 			}
 		}
 		c.g.Pkg = "p"
+		if !cfg.NoSpellings && len(c.g.Rules) > 1 && c.chance(10, "decoyrule") {
+			c.g.Decoy = c.g.Rules[c.intn(1, len(c.g.Rules)-1, "decoyidx")].Name
+		}
 		c.g.Analyze()
 		if err := c.g.Validate(); err != nil {
 			panic("gspec generator bug: " + err.Error())
